@@ -197,7 +197,7 @@ PROPS['C04'] = dict(
     explanation='Inductive invariant over a counter-abstracted LTS of close/PipeTo/Result with unboundedly many threads: one CAS winner, closer once, done implies written, forwarder conservation; at quiescence every forwarder told the final result exactly once (repaired PipeTo) and a 4-step witness for the code as found.',
 )
 
-FRAME_HITS = ['coalesced', 'split-1', 'byte-by-byte', 'split-random', 'cut', 'undecodable', 'close-frame', 'invalid-length', 'large']
+FRAME_HITS = ['coalesced', 'split-1', 'byte-by-byte', 'split-random', 'cut', 'undecodable', 'close-frame', 'invalid-length', 'large', 'large:at-limit']
 PROPS['C11'] = dict(
     modules=['Vivid.Props.C11'],
     gens=[],
